@@ -203,6 +203,7 @@ def concrete(repo, seed, n):
     """bounded float checks: coupled systems (complex modes via scipy eig), pre_eig, SolveUnc vs FreqDirect, residual of the dynamic-stiffness equation"""
     sys.path.insert(0, repo)
     from pyyeti import ode
+    import scipy.linalg as la
     rng = np.random.RandomState(seed)
     ev = 0
     for it in range(n):
@@ -300,6 +301,45 @@ def concrete(repo, seed, n):
             ev += 1
             if not np.allclose(s6.d, refc, rtol=1e-8, atol=1e-14):
                 return ev, dict(solver="FreqDirect", what="coupled frequency response with rf = %s differs from the direct solve" % (rf6,))
+        # element type of the arrays: integer-typed m, b, k (all, or one at a time) give what the same numbers give as floats - rigid-body, elastic and rf rows
+        mI, bI, kI = np.array([2, 1, 3, 1, 2]), np.array([0, 1, 2, 0, 0]), np.array([0, 90, 150, 5000, 7000])
+        fqI = np.sort(rng.rand(5) * 5 + 0.3)
+        FI_ = rng.randn(5, 5) + 1j * rng.randn(5, 5)
+        WI = 2 * np.pi * fqI
+        refI = np.array([FI_[k_] / (kI[k_] if k_ >= 3 else (-WI ** 2 * mI[k_] + 1j * WI * bI[k_] + kI[k_])) for k_ in range(5)])
+        for which_, (ma, ba, ka) in (("m, b, k", (mI, bI, kI)), ("k", (mI.astype(float), bI.astype(float), kI)), ("m", (mI, bI.astype(float), kI.astype(float)))):
+            for cls_ in ("SolveUnc", "FreqDirect"):
+                sI = getattr(ode, cls_)(ma, ba, ka, rf=[3, 4], rb=[0]).fsolve(FI_, fqI)
+                ev += 1
+                if not np.allclose(sI.d, refI, rtol=1e-9, atol=1e-14):
+                    return ev, dict(solver=cls_, what="frequency response with integer-typed %s differs from the closed form (same numbers as floats are correct)" % which_,
+                                    m=np.asarray(ma).tolist(), b=np.asarray(ba).tolist(), k=np.asarray(ka).tolist())
+        # pre-eigensolution + residual-flexibility modes + rf_disp_only: modal solution by hand (own eigh, modal dynamic stiffness, static rf, v = a = 0 on rf when asked)
+        Mp_ = np.diag([2.0, 1.5, 3.0, 1.0])
+        Kp_ = np.array([[90.0, -30.0, 0.0, 0.0], [-30.0, 60.0, -20.0, 0.0], [0.0, -20.0, 45.0, -5.0], [0.0, 0.0, -5.0, 4000.0]])
+        w2_, ph_ = la.eigh(Kp_, Mp_)
+        zt_ = np.array([0.02, 0.03, 0.01, 0.05])
+        Bp_ = Mp_ @ ph_ @ np.diag(2 * zt_ * np.sqrt(w2_)) @ ph_.T @ Mp_
+        fqP = np.sort(rng.rand(6) * 6 + 0.3)
+        FP_ = rng.randn(4, 6) + 1j * rng.randn(4, 6)
+        WP = 2 * np.pi * fqP
+        Fq_ = ph_.T @ FP_
+        for rfdo in (False, True):
+            for rfm in ([3], [2, 3]):
+                dq = np.empty((4, 6), complex); vq = np.empty((4, 6), complex); aq = np.empty((4, 6), complex)
+                for k_ in range(4):
+                    if k_ in rfm:
+                        dq[k_] = Fq_[k_] / w2_[k_]
+                        vq[k_], aq[k_] = (0, 0) if rfdo else (1j * WP * dq[k_], -WP ** 2 * dq[k_])
+                    else:
+                        dq[k_] = Fq_[k_] / (-WP ** 2 + 1j * WP * 2 * zt_[k_] * np.sqrt(w2_[k_]) + w2_[k_])
+                        vq[k_], aq[k_] = 1j * WP * dq[k_], -WP ** 2 * dq[k_]
+                sP = ode.SolveUnc(Mp_, Bp_, Kp_, pre_eig=True, rf=rfm).fsolve(FP_, fqP, rf_disp_only=rfdo)
+                ev += 1
+                okP = all(np.allclose(g_, ph_ @ w_, rtol=1e-7, atol=1e-9 * abs(ph_ @ w_).max()) for g_, w_ in ((sP.d, dq), (sP.v, vq), (sP.a, aq)))
+                if not okP:
+                    return ev, dict(solver="SolveUnc", what="pre_eig=True with residual-flexibility modes %s, rf_disp_only=%s: d, v, a differ from phi times the modal solution computed by hand "
+                                    "(static rf displacement; rf velocity / acceleration zero when rf_disp_only)" % (rfm, rfdo))
         # diagonal system with rb + 0 Hz anywhere in the frequency vector, permutation invariance
         m_, b_, k_ = np.array([2.0, 1.0, 3.0]), np.array([0.0, 0.4, 0.6]), np.array([0.0, 90.0, 150.0])
         fq = np.array([1.5, 0.0, 4.0, 2.5])[rng.permutation(4)]
